@@ -42,6 +42,10 @@ func main() {
 		serverMode()
 		return
 	}
+	if len(os.Args) > 1 && os.Args[1] == "paths" {
+		pathsMode()
+		return
+	}
 	in := bufio.NewReaderSize(os.Stdin, 1<<20)
 	out := bufio.NewWriter(os.Stdout)
 	defer out.Flush()
